@@ -325,6 +325,28 @@ func runC06(r *Run, rng *Rng, thorough bool) {
 			tryJSON("deep-nesting/json-member", []byte(`{"i1":`+doc+`}`))
 		}
 	}
+	// (2a) byte strings wrapped in byte strings (opaque to the CBOR library's nesting limit): as a claims-set, as the
+	// payload of an envelope, as a claim's value
+	for _, dp := range []int{1, 2, 16, 300, 2000, 15000} {
+		inner := tokenOf(d1).Bytes()
+		if dp > 300 {
+			inner = []byte{0xa0}
+		}
+		w := inner
+		for k := 0; k < dp && len(w) < 65000; k++ {
+			w = append(headFor(2, uint64(len(w))), w...)
+		}
+		if len(w) > 65536 {
+			continue
+		}
+		tryCBOR("deep-nesting/bstr-in-bstr", w)
+		prot, _, sig, _ := envelopeParts(tok1)
+		if env := envelope(nBstr(prot), nMap(), nBstr(w), nBstr(sig)); len(env) <= 65536 {
+			try("deep-nesting/bstr-in-bstr-payload", 0, env)
+			try("deep-nesting/bstr-in-bstr-payload", 16, env)
+		}
+		try("deep-nesting/bstr-in-bstr-value", 1, append([]byte{0xa1, 0x19, 0x01, 0x00}, w...))
+	}
 	// (2b) deep nesting where the JSON dispatcher reads it: under a profile member, with the profile unknown, null or
 	// absent (the document is then refused: the refusal must not cost more than the document)
 	for _, dp := range []int{100, 1500, 4000, 9000} {
